@@ -125,8 +125,11 @@ func evalC07(c *Ctx, cs *Case) {
 		extChoices = []int{extChoices[r.Intn(3)]}
 		targetForms = []int{r.Intn(3)}
 	}
-	for _, rtIdx := range []int{0, 1} {
+	for _, rtIdx := range []int{0, 1, 2, 3} {
 		rt := mkdirRoutes[rtIdx]
+		if rtIdx >= 2 && (cs.Idx+rtIdx)%2 == 0 {
+			continue // the deprecated aliases for half of the cases
+		}
 		if !rt.FromRoot && !spellable {
 			continue
 		}
@@ -191,7 +194,7 @@ func c07One(c *Ctx, cs *Case, f model.Forest, doc, fkey string, rt fsRoute, dry,
 		captureColorOutput(func() {
 			if rt.FromRoot {
 				for i, root := range f {
-					if (cs.Idx+i)%2 == 1 {
+					if (cs.Idx+i)%2 == 1 && !rt.Alias {
 						// a tree that has been used before: Output and Walk first, then Mkdir on the SAME tree
 						g := BuildRoot(root)
 						_ = Guard(func() error { return gtree.OutputFromRoot(mon.NewRecWriter(), g) })
@@ -213,7 +216,9 @@ func c07One(c *Ctx, cs *Case, f model.Forest, doc, fkey string, rt fsRoute, dry,
 	case 2:
 		withCwd(filepath.Dir(j.Target), call)
 	default:
-		call()
+		// explicit target: the working directory is a sentinel directory INSIDE the jail, so that
+		// anything created relative to the working directory (a dropped target option) is seen
+		withCwd(filepath.Join(filepath.Dir(j.Target), "sentinel-a"), call)
 	}
 	if massive {
 		// a massive call may return (with an error) while its workers are still creating
